@@ -282,3 +282,57 @@ package z
 //@   ensures [C10] #subset forall i int :: 0 <= i && i < GcNumKeys(n) ==> exists j int :: 0 <= j && j < old(GcNumKeys(n)) && GcKey(n, i) == old(GcKey(n, j)) && GcVal(n, i) == old(GcVal(n, j))
 //@   ensures [C10] #meta n[2*maxKeys] == old(n[2*maxKeys]) && n[2*maxKeys+1]&0xFFFFFFFF00000000 == old(n[2*maxKeys+1])&0xFFFFFFFF00000000
 //@   ensures [C10] #count result == 0 || result == GcNumKeys(n)
+
+// ---------------------------------------------------------------- allocator.go (C12)
+//
+// The bump pointer is verified in the sequential model (compIdx is an ordinary
+// field; sync/atomic operations on it execute in program order).  What carries
+// over to concurrent callers is stated by the ticket lemma GcTicketsDisjoint:
+// the region handed out is a function of the value returned by the one atomic
+// add of the fast path alone.
+//@ lockinv [C12] Allocator.Mutex (a): true
+
+//@ spec GcBI(pos uint64) int = int(pos >> 32)
+//@ spec GcPI(pos uint64) int = int(pos & 0xFFFFFFFF)
+//@ spec GcWfChunks(a *Allocator) bool = a != nil && len(a.buffers) == 64 && len(a.buffers[0]) > 0 && (forall i int :: 0 <= i && i < 64 ==> len(a.buffers[i]) <= 1<<30 && gcAllocated(a.buffers[i])) && (forall i, j int :: 0 <= i && i < j && j < 64 && len(a.buffers[j]) > 0 ==> len(a.buffers[i]) > 0 && !gcSameArray(a.buffers[i], a.buffers[j]))
+//@ spec GcWfPos(a *Allocator) bool = GcBI(a.compIdx) < 64 && len(a.buffers[GcBI(a.compIdx)]) > 0 && GcPI(a.compIdx) <= len(a.buffers[GcBI(a.compIdx)])
+
+//@ func Memclr(b []byte)
+//@   trusted runtime.memclrNoHeapPointers clears exactly len(b) bytes starting at &b[0]
+//@   modifies b[*]
+//@   ensures forall i int :: 0 <= i && i < len(b) ==> b[i] == 0
+
+//@ func parse(pos uint64) (bufIdx, posIdx int)
+//@   ensures [C12] bufIdx == GcBI(pos) && posIdx == GcPI(pos) && 0 <= bufIdx && bufIdx < 1<<32 && 0 <= posIdx && posIdx < 1<<32
+
+//@ func (a *Allocator) Reset()
+//@   requires a != nil
+//@   modifies a.compIdx
+//@   ensures [C12] #rewound a.compIdx == 0
+
+//@ func (a *Allocator) addBufferAt(bufIdx, minSz int)
+//@   requires GcWfChunks(a) && 1 <= bufIdx && bufIdx <= 64 && len(a.buffers[bufIdx-1]) > 0 && 0 < minSz && minSz <= 1<<30
+//@   panics_if [C12] #nochunkleft forall k int :: bufIdx <= k && k < 64 ==> 0 < len(a.buffers[k]) && len(a.buffers[k]) < minSz
+//@   modifies a.buffers[*]
+//@   loop 1 invariant bufIdx0 <= bufIdx && bufIdx <= 64 && len(a.buffers[bufIdx-1]) > 0 && (forall k int :: bufIdx0 <= k && k < bufIdx ==> 0 < len(a.buffers[k]) && len(a.buffers[k]) < minSz)
+//@   loop 1 modifies nothing
+//@   loop 2 invariant 2 <= pageSize && pageSize <= 1<<32
+//@   loop 2 modifies nothing
+//@   loop 2 decreases (1<<33) - pageSize
+//@   ensures [C12] #wf GcWfChunks(a)
+//@   ensures [C12] #stable forall i int :: 0 <= i && i < 64 && old(len(a.buffers[i])) > 0 ==> gcSameRef(a.buffers[i], old(a.buffers[i]))
+//@   ensures [C12] #fits exists k int :: bufIdx <= k && k < 64 && len(a.buffers[k]) >= minSz && forall j int :: bufIdx <= j && j < k ==> 0 < len(a.buffers[j])
+//@   ensures [C12] #reuse (exists k int :: bufIdx <= k && k < 64 && old(len(a.buffers[k])) >= minSz) ==> forall i int :: 0 <= i && i < 64 ==> gcSameRef(a.buffers[i], old(a.buffers[i]))
+
+//@ func (a *Allocator) Allocate(sz int) []byte
+//@   requires 0 <= sz && (a == nil || (GcWfChunks(a) && GcWfPos(a)))
+//@   panics_if [C12] #toolarge a != nil && (sz > 1<<30 || GcBI(a.compIdx) >= 62)
+//@   modifies a.compIdx, a.buffers[*]
+//@   loop 1 invariant GcWfChunks(a) && GcWfPos(a) && (GcBI(a.compIdx) > old(GcBI(a.compIdx)) || (GcBI(a.compIdx) == old(GcBI(a.compIdx)) && GcPI(a.compIdx) >= old(GcPI(a.compIdx))))
+//@   loop 1 invariant #kept forall i int :: 0 <= i && i < 64 && old(len(a.buffers[i])) > 0 ==> gcSameRef(a.buffers[i], old(a.buffers[i]))
+//@   ensures [C12] #nil a == nil ==> len(result) == sz && (sz > 0 ==> gcFresh(result))
+//@   ensures [C12] #empty a != nil && sz == 0 ==> len(result) == 0 && a.compIdx == old(a.compIdx)
+//@   ensures [C12] #wf a != nil ==> GcWfChunks(a) && GcWfPos(a)
+//@   ensures [C12] #exact a != nil && sz > 0 ==> len(result) == sz && gcSliceAt(result, a.buffers[GcBI(a.compIdx)], GcPI(a.compIdx)-sz) && GcPI(a.compIdx)-sz >= 0
+//@   ensures [C12] #above a != nil && sz > 0 ==> GcBI(a.compIdx) > old(GcBI(a.compIdx)) || (GcBI(a.compIdx) == old(GcBI(a.compIdx)) && GcPI(a.compIdx)-sz >= old(GcPI(a.compIdx)))
+//@   ensures [C12] #stable a != nil ==> forall i int :: 0 <= i && i < 64 && old(len(a.buffers[i])) > 0 ==> gcSameRef(a.buffers[i], old(a.buffers[i]))
